@@ -61,8 +61,18 @@ def fold_parse_cmd(repo, request, state=None, custom=None, hdr_ver=0):
         calls.append(("measure", tuple(a), ()))
         return -77
     e = Ev(repo, ci.mod, env=env, self_cls=ci)
+
+    def power(a, kw):
+        # the transceiver's power event handler: recorded, and modelled by its one effect the command handler may
+        # read back - the running flag takes the requested state (C12.R2 decides that from the handler's own source)
+        calls.append(("power_event_handler", tuple(a), tuple(sorted(kw.items()))))
+        on = a[0] if a else kw.get("poweron")
+        if isinstance(on, bool):
+            e.env["self.trx.running"] = on
+        return None
+    power.wants_kw = True
     e.hooks = {"self.trx.ctrl_cmd_handler": lambda a: custom,
-               "self.trx.power_event_handler": rec("power_event_handler"),
+               "self.trx.power_event_handler": power,
                "self.trx.enable_fh": rec("enable_fh"), "self.trx.disable_fh": rec("disable_fh"),
                "self.trx.tx_queue_clear": rec("tx_queue_clear"),
                "self.trx.data_if.set_hdr_ver": set_ver, "self.trx.data_if.pick_hdr_ver": pick_ver,
